@@ -70,38 +70,83 @@ def _has_var(t, _cache={}):
 
 def instantiate(ground, schemas, rounds=3, cap=4000, per_sort_cap=80):
     """Return ground instances of the schemas relevant to `ground` (list of z3 Bool)."""
+    import itertools
     out = []
     done = set()
-    formulas = list(ground)
+    seen = {}                 # term id -> term (all application sub-terms met so far)
+    by_sort = {}              # sort id -> [(id, term)] ground, non-literal applications, in discovery order
+    by_decl = {}              # decl name -> [term]
+    sort_ids = {}
+    flt_cache = {}
+
+    def sid(s):
+        k = s.get_id()
+        sort_ids.setdefault(k, s)
+        return k
+
+    def absorb(formulas):
+        stack = list(formulas)
+        while stack:
+            t = stack.pop()
+            k = t.get_id()
+            if k in seen:
+                continue
+            seen[k] = t
+            if z3.is_app(t):
+                stack.extend(t.children())
+                if _is_ground(t):
+                    if not _is_value_literal(t):
+                        by_sort.setdefault(sid(t.sort()), []).append((k, t))
+                    if t.num_args() > 0:
+                        by_decl.setdefault(t.decl().name(), []).append(t)
+            elif z3.is_quantifier(t):
+                stack.append(t.body())
+
+    def passes(flt, k, t):
+        if flt is None:
+            return True
+        key = (id(flt), k)
+        r = flt_cache.get(key)
+        if r is None:
+            r = flt_cache[key] = bool(flt(t))
+        return r
+    absorb(ground)
     for _ in range(rounds):
-        terms = [t for t in collect(formulas) if z3.is_app(t) and _is_ground(t)]
         new = []
         for q in schemas:
             if q.trigger is None:
                 pools = []
                 for vi, s in enumerate(q.sorts):
                     flt = q.pool[vi] if isinstance(q.pool, (list, tuple)) else q.pool
-                    pool = [t for t in terms if t.sort() == s and not _is_value_literal(t) and (flt is None or flt(t))]
-                    pool.sort(key=lambda t: t.get_id())
+                    pool = [(k, t) for k, t in by_sort.get(sid(s), ()) if passes(flt, k, t)]
+                    pool.sort(key=lambda kt: kt[0])
                     pools.append(pool[:per_sort_cap])
-                import itertools
                 combos = itertools.product(*pools)
+                keyed = True
             else:
                 trig = q.trigger if isinstance(q.trigger, (list, tuple)) else [q.trigger]
-                names = {d.name(): d for d in trig}
                 combos = []
-                for t in terms:
-                    d = t.decl()
-                    if d.name() in names and d.arity() >= len(q.sorts) and d.arity() > 0:
+                keyed = False
+                n = len(q.sorts)
+                for d in trig:
+                    if d.arity() < n or d.arity() == 0:
+                        continue
+                    for t in by_decl.get(d.name(), ()):
+                        if t.num_args() != d.arity():
+                            continue
                         args = t.children()
                         if q.pick is not None:
                             args = [args[i] for i in q.pick]
                         else:
-                            args = args[:len(q.sorts)]
-                        if all(a.sort() == s for a, s in zip(args, q.sorts)):
+                            args = args[:n]
+                        if all(sid(a.sort()) == sid(s_) for a, s_ in zip(args, q.sorts)):
                             combos.append(tuple(args))
             for c in combos:
-                key = (id(q), tuple(a.get_id() for a in c))
+                if keyed:
+                    key = (id(q),) + tuple(k for k, _t in c)
+                    c = tuple(t for _k, t in c)
+                else:
+                    key = (id(q),) + tuple(a.get_id() for a in c)
                 if key in done:
                     continue
                 done.add(key)
@@ -112,7 +157,7 @@ def instantiate(ground, schemas, rounds=3, cap=4000, per_sort_cap=80):
         if not new:
             break
         out.extend(new)
-        formulas = formulas + new
+        absorb(new)
     return out
 
 
